@@ -148,18 +148,19 @@ def plain_inner_literal(v):
 
 
 def qt_safe(t):
-    """quoted triple (case tree) all of whose components are written unambiguously"""
+    """quoted triple (case tree) all of whose components are written unambiguously (= qsafe of coq/Codec14/Spec.v)"""
     s, p, o = t["q"]
+    nows = lambda v: not (set(v) & WS)
     if isinstance(s, dict):
         if not qt_safe(s):
             return False
-    elif not (wf_iri(s) or wf_bnode(s)):
+    elif not ((wf_iri(s) and nows(s)) or wf_bnode(s)):
         return False
-    if not wf_iri(p):
+    if not (wf_iri(p) and nows(p)):
         return False
     if isinstance(o, dict):
         return qt_safe(o)
-    return wf_iri(o) or wf_bnode(o) or (kind_guess_stable(o) and plain_inner_literal(o))
+    return (wf_iri(o) and nows(o)) or wf_bnode(o) or (kind_guess_stable(o) and plain_inner_literal(o))
 
 
 def case_terms(case):
@@ -216,7 +217,7 @@ def gen_qt(rng, depth, unsafe=False):
     elif r < 0.7:
         o = gen_bnode(rng)
     else:
-        o = rng.choice(["w", "two words", "a b c", "x1", "", "d.e", "v;w,x", "\u00e9 \U0001F600", "k:v" if False else "k-v"])
+        o = rng.choice(["w", "two words", "a b c", "x1", "", "d.e", "v;w,x", "\u00e9 \U0001F600", "k-v", "{|x|}", "a {| b"])
         if unsafe and rng.random() < 0.5:
             o = rng.choice(["a  b", " lead", "trail ", "tab\there", "line\nbreak", "x\"y", "\"q\"", "a>>b", "<<a", "b\\", "he said \"hi\"", "x<y", "x>y"])
     return {"q": [s, p, o]}
@@ -338,6 +339,10 @@ def eval_rt(ctx, binpath, cases, stream, report=True):
             missing = [q for q in expected if ib[0] != "ok" or q not in ib[1]]
             extra = [q for q in ib[1] if q not in expected] if ib[0] == "ok" else []
             if qt and not qt_ok:
+                v[key] = "known:C14-quoted-triple-bare-components"
+                continue
+            if key == "ttl" and any(q[3] is None and q[2].startswith("<<") and "{|" in q[2] for q in orig):
+                # a quoted-triple object is written bare, so an annotation marker inside it is taken for an annotation
                 v[key] = "known:C14-quoted-triple-bare-components"
                 continue
             known = dd_ttl_quad if key == "ttl" else dd_quad
@@ -617,9 +622,10 @@ def run(ctx):
                      "dictionary and quoted-triple store are injective term<->id maps (C15)",
                      "iteration order of the store is arbitrary: the model is run on the order the implementation reported"],
         extra={"partial": [
-            "quoted-triple terms are outside wf_db: no round-trip theorem covers them; they are modelled (ets_fuel, split_qt, "
-            "depth tracking of both tokenizers) and checked by correspondence and by the Spec oracle on qt_safe datasets only",
-            "C14_turtle is stated for a database with an empty prefix map"]})
+            "quoted-triple terms: theorems C14_*_quoted cover the safe class qsafe (= qt_safe of this check); quoted triples "
+            "outside it are the open finding C14-quoted-triple-bare-components (refuted on the model for an inner literal with "
+            "two spaces); for Turtle the class known_ttl_q also excludes a quoted-triple object containing the marker {|",
+            "C14_turtle / C14_turtle_quoted are stated for a database with an empty prefix map"]})
 
 
 def replay(ctx):
